@@ -19,6 +19,10 @@ pub struct Program {
     pub features: Vec<String>,
     #[serde(default)]
     pub label: String,
+    /// how display paths are given to mamba_to_python: "" = distinct paths, "none" = no paths,
+    /// "same" = the same path for every source (the API allows all three)
+    #[serde(default)]
+    pub path_mode: String,
 }
 
 #[derive(Clone, Debug, Serialize, Deserialize, PartialEq, Eq)]
@@ -110,6 +114,9 @@ pub struct JobsResult {
     /// global order in which (round, job index) slices ran, as decided by the scheduler
     pub interleaving_digest: String,
     pub switches: u64,
+    /// threads the code under test created itself (held and released by the simulator)
+    #[serde(default)]
+    pub lib_threads: u64,
 }
 
 // ------------------------------------------------------------------------------ C13
